@@ -699,11 +699,13 @@ impl Synth {
                     }
                 }
                 Err(_) => {
-                    // `accs[0]` on an empty slice: outside the property's quantifier
-                    // (accumulate of 1..5); recorded, and the model says `panic` as well
+                    // every slice has a value; the empty one is the regression of f706bff
+                    // (`accs[0]` on an empty slice)
                     ctx.case(&kind, false, line.trim_end(), "panic");
                     if k > 0 {
                         ctx.oracle_fail("accumulate:panic", "Accumulator::accumulate panics on a non-empty slice", json!({"op": line}));
+                    } else {
+                        ctx.oracle_fail("accumulate:empty-slice-panics", "Accumulator::accumulate(&[]) panics instead of returning a value", json!({"op": line}));
                     }
                 }
             }
